@@ -42,13 +42,13 @@ Theorem load_stored_file l base pf h t v evs :
   wt t v = true -> exhausted_in t v = false ->
   ser_top pf h t v = (evs, SDone) ->
   base mod max_unit t = 0 ->
-  (l = LMem -> align_of t <= 64) ->
+  (l = LMem -> rust_align t <= 64) ->
   exists e, load l base h t (store_file (evs, SDone)) =
               Ok (e, ndrop (nlen (bytes_of evs)) (region l (bytes_of evs)), evs_len evs) /\
             erase e = v.
 Proof.
   intros Hh Hw Hu Hc Hd Ht He Hs Hb Hpre. unfold store_file. cbn [fst].
-  destruct l; cbn [load]; [| unfold mem_precheck; destruct (N.ltb_spec 64 (align_of t)) as [Hgt|_]; [specialize (Hpre eq_refl); lia|] | |].
+  destruct l; cbn [load]; [| unfold mem_precheck; destruct (N.ltb_spec 64 (rust_align t)) as [Hgt|_]; [specialize (Hpre eq_refl); lia|] | |].
   - exists v. rewrite (full_roundtrip_top pf h t v evs Hh Hw Hd Ht He Hs).
     unfold region. cbn [capacity]. rewrite N.sub_diag. cbn. rewrite app_nil_r.
     rewrite ndrop_all by lia. split; [reflexivity|]. now apply (proj1 erase_wt t).
